@@ -881,9 +881,11 @@ func exists(lo, hi int, f func(i int) bool) bool {
 				var ps []string
 				c.Params = nil
 				for _, nm := range identNames(e) {
-					if nm == "ii" {
-						ps = append(ps, "ii int")
-						c.Params = append(c.Params, "ii")
+					if nm == "ii" || nm == "oi" {
+						// ii: number of elements a range loop has completed; oi: index of the element the
+						// innermost ENCLOSING range loop is working on
+						ps = append(ps, nm+" int")
+						c.Params = append(c.Params, nm)
 						continue
 					}
 					li, ok := locals[pc.Rel+"|"+fc.Key()+"|"+nm]
